@@ -20,6 +20,7 @@ import (
 	"encoding/binary"
 	"errors"
 	"fmt"
+	"runtime"
 	"sort"
 	"strings"
 	"sync"
@@ -35,9 +36,10 @@ import (
 )
 
 const (
-	maxID     = 5
-	baseUnix  = 1_000_000_000 // 2001-09-09T01:46:40Z
-	hangBound = 20 * time.Second
+	maxID      = 5
+	baseUnix   = 1_000_000_000 // 2001-09-09T01:46:40Z
+	hangBound  = 20 * time.Second
+	maxBacklog = 300 // overdue occurrences at Schedule time (cost bound)
 )
 
 type Op struct {
@@ -224,6 +226,7 @@ type world struct {
 	workers  int
 	tasks    [maxID + 1]*taskM
 	nRuns    int
+	nCps     int
 	nErrRuns int
 	nPanics  int
 	nBlocked int
@@ -249,9 +252,10 @@ func (w *world) ping() {
 }
 
 func (w *world) log(f string, a ...any) {
-	if len(w.trace) < 400 {
-		w.trace = append(w.trace, fmt.Sprintf(f, a...))
+	if len(w.trace) >= 256 {
+		w.trace = append(w.trace[:0], w.trace[128:]...)
 	}
+	w.trace = append(w.trace, fmt.Sprintf(f, a...))
 }
 
 func rel(s int64) string {
@@ -368,6 +372,7 @@ func (w *world) UpdateLastScheduled(ctx context.Context, sid scheduler.ID, ts ti
 	}
 	t := w.tasks[id]
 	cp := ts.Unix()
+	w.nCps++
 	w.log("op%d checkpoint id=%d %s", w.opIdx, id, rel(cp))
 	r := t.pendingCP
 	t.pendingCP = nil
@@ -396,6 +401,12 @@ func (w *world) blockedWorkers() map[int]int { // worker -> id of the blocked ru
 		}
 	}
 	return m
+}
+
+func (w *world) curNow() int64 {
+	w.mu.Lock()
+	defer w.mu.Unlock()
+	return w.cur
 }
 
 func (w *world) blockedSnap() map[int]int {
@@ -529,7 +540,7 @@ func run(c Case, cc *kit.Case) {
 		}
 		w.mu.Lock()
 		if w.failSig != "" {
-			cc.Fail(w.failSig, "%s\nworkers=%d trace (tail):\n  %s", w.failMsg, c.Workers, strings.Join(tail(w.trace, 40), "\n  "))
+			cc.Fail(w.failSig, "%s\nworkers=%d trace (tail):\n  %s", w.failMsg, c.Workers, strings.Join(tail(w.trace, 16), "\n  "))
 		}
 		runs := w.nRuns
 		if w.nErrRuns > 0 {
@@ -607,6 +618,30 @@ func run(c Case, cc *kit.Case) {
 			if err != nil {
 				cc.Fail("harness/spec", "Next(%v) of %q: %v", aligned, op.Spec, err)
 				return
+			}
+			// cost bound: at most maxBacklog overdue occurrences at Schedule time (a checkpoint
+			// can be arbitrarily old; the scheduler runs every missed occurrence)
+			{
+				nowT := time.Unix(0, w.curNow()).UTC()
+				o, k := first, 0
+				for ; k <= maxBacklog && !o.After(nowT); k++ {
+					if o, err = sch.Next(o); err != nil {
+						cc.Fail("harness/spec", "Next of %q: %v", op.Spec, err)
+						return
+					}
+				}
+				if k > maxBacklog {
+					labels["schedule:backlog-clamped"] = true
+					second, _ := sch.Next(first)
+					ts = nowT.Add(-time.Duration(maxBacklog/2) * second.Sub(first))
+					if sch, aligned, err = scheduler.NewSchedule(op.Spec, ts); err == nil {
+						first, err = sch.Next(aligned)
+					}
+					if err != nil {
+						cc.Fail("harness/spec", "NewSchedule/Next(%q): %v", op.Spec, err)
+						return
+					}
+				}
 			}
 			w.mu.Lock()
 			if t.scheduled {
@@ -788,8 +823,9 @@ func run(c Case, cc *kit.Case) {
 			return
 		}
 		if !ok {
+			dump := schedulerStacks()
 			w.mu.Lock()
-			w.fail(sig, "after op %d %+v (waited %v): %s", i, op, hangBound, why)
+			w.fail(sig, "after op %d %+v (no recorded call for %v): %s\ntimer: %s\ngoroutines in scheduler code:\n%s", i, op, hangBound, why, hc.timerState(), dump)
 			w.mu.Unlock()
 			return
 		}
@@ -801,15 +837,20 @@ func run(c Case, cc *kit.Case) {
 func waitSettled(w *world, hc *hclock) (bool, string, string) {
 	start := time.Now()
 	nextFlush := start.Add(20 * time.Millisecond)
+	seen := -1
 	for {
 		w.mu.Lock()
 		ok, sig, why := w.settled()
 		failed := w.failSig != "" && !w.draining
+		progress := w.nRuns + w.nCps
 		w.mu.Unlock()
 		if ok || failed {
 			return true, "", ""
 		}
 		now := time.Now()
+		if progress != seen { // the bound is on the time WITHOUT any recorded call, not on the length of a catch-up
+			seen, start = progress, now
+		}
 		if now.Sub(start) > hangBound {
 			return false, sig, why
 		}
@@ -827,6 +868,22 @@ func waitSettled(w *world, hc *hclock) (bool, string, string) {
 	}
 }
 
+// schedulerStacks: diagnostic for hang reports (which scheduler goroutines exist and where they are).
+func schedulerStacks() string {
+	buf := make([]byte, 1<<20)
+	buf = buf[:runtime.Stack(buf, true)]
+	var out []string
+	for _, g := range strings.Split(string(buf), "\n\n") {
+		if strings.Contains(g, "backend/scheduler.") {
+			if len(g) > 1500 {
+				g = g[:1500] + " ..."
+			}
+			out = append(out, g)
+		}
+	}
+	return strings.Join(out, "\n\n")
+}
+
 func tail(s []string, n int) []string {
 	if len(s) > n {
 		return s[len(s)-n:]
@@ -842,7 +899,8 @@ var assumptions = []string{
 	"clock = benbjohnson/clock Mock v1.1.0; the harness advances it with the scheduler's mutex held (atomic jump), flushes due timers after every operation and drops a tick when the timer channel is full (real time.Timer semantics); see clock_test.go",
 	"worker of an id = xxhash(id) mod workers (TreeScheduler doc comment): used only to decide which due occurrences can be waited for while an executor is blocked, and for labels",
 	"a panicking executor is inside the contract: TreeScheduler.work recovers it (ErrUnrecoverable 'executor panicked') and carries on",
-	"liveness (a due occurrence on a non-blocked worker is executed) uses a 20 s hang bound; the normal latency is < 20 ms",
+	"liveness (a due occurrence on a non-blocked worker is executed) uses a hang bound of 20 s without any recorded executor/checkpoint call; the normal latency is < 20 ms",
+	"cost bound: at most 300 overdue occurrences at Schedule time (an older lastScheduled is moved to 150 periods before the clock); a clock advance is at most 120 periods of the fastest scheduled task",
 }
 
 func TestSched(t *testing.T) {
